@@ -2159,8 +2159,22 @@ class BaseEvolutionOperations(object):
         merged together into a single AlterTableSQLResult. This checks
         to see if the operations qualify.
         """
-        return (op1['type'] in self.mergeable_ops and
-                op2['type'] in self.mergeable_ops)
+        return (self._is_op_mergeable(op1) and
+                self._is_op_mergeable(op2))
+
+    def _is_op_mergeable(self, op):
+        """Return whether an operation can be merged with adjacent ones.
+
+        Args:
+            op (dict):
+                The operation to check.
+
+        Returns:
+            bool:
+            ``True`` if the operation can be merged. ``False`` if it cannot.
+        """
+        return (op['type'] in self.mergeable_ops or
+                (op['type'] == 'sql' and op.get('mergeable', False)))
 
     def _create_index_from_mutation_info(self, index_info):
         """Create and return a new index based on mutation information.
